@@ -241,6 +241,11 @@ structure DSt where
   names : List String := []            -- fake peer K is `names[K-1]`
   out : List (Nat × Nat) := []          -- implementation side: requests sent and not yet answered / cleared
   desync : Option String := none
+  bits : List (List Bool) := []         -- implementation side: what fake peer K announced to have (index K-1)
+  origin : List Bool := []              -- implementation side: fake peer K was added as an origin
+  prevFailed : List (Nat × Nat) := []   -- (peer, piece) of the failed requests listed after the previous op
+  pipe : Nat := 1
+  opipe : Nat := 2
 
 def dinit (cfg : List String) : Option DSt := do
   let pl ← (kv? cfg "pl").bind nat?
@@ -250,8 +255,9 @@ def dinit (cfg : List String) : Option DSt := do
   let mi := MetaInfo.ofBlob crc32 pl blob
   -- origin peers get pipeline + 1 slots: the model's single limit is the larger one (it only has to admit
   -- what the implementation does)
-  some { sw := { cfg := { maxConns := 1000, pipeline := pipe + 1 }, peers := [{ tor := KrakenModel.AgentTorrent.init mi }] },
-         pl := pl, blob := blob }
+  let opipe := ((kv? cfg "opipeline").bind nat?).getD (pipe + 1)
+  some { sw := { cfg := { maxConns := 1000, pipeline := max pipe opipe }, peers := [{ tor := KrakenModel.AgentTorrent.init mi }] },
+         pl := pl, blob := blob, pipe := pipe, opipe := opipe }
 
 def dpeer? (s : DSt) (tok : String) : Option Nat := (s.names.idxOf? tok).map (· + 1)
 
@@ -298,7 +304,7 @@ def dstepCore (s : DSt) (kind : String) (args impl : List String) : Option (DSt 
   -- 1. the op's own model action
   let pre : Option (DSt × String × List String) :=
     match args with
-    | ["addpeer", name, bits, _] =>
+    | ["addpeer", name, bits, orig] =>
       if s.names.contains name then none else
       let k := s.names.length + 1
       let mi := MetaInfo.ofBlob crc32 s.pl s.blob
@@ -307,7 +313,8 @@ def dstepCore (s : DSt) (kind : String) (args impl : List String) : Option (DSt 
       let sw := match s.sw.peers[0]? with
         | some pa => { s.sw with peers := (s.sw.peers.set 0 { pa with conns := k :: pa.conns }) ++ [pk] }
         | none => s.sw
-      some ({ s with sw := sw, names := s.names ++ [name] }, "addpeer", [])
+      some ({ s with sw := sw, names := s.names ++ [name], bits := s.bits ++ [bits.toList.map (· == '1')],
+                     origin := s.origin ++ [orig == "1"] }, "addpeer", [])
     | ["more", _] => some (s, "more", [])
     | ["state"] => some (s, "state", [])
     | ["tick", _] => some (s, "tick", [])
@@ -317,15 +324,14 @@ def dstepCore (s : DSt) (kind : String) (args impl : List String) : Option (DSt 
       let i ← nat? iT
       let pk ← s.sw.peers[k]?
       let pk' := { pk with tor := { pk.tor with pieces := pk.tor.pieces.set i .complete } }
-      some ({ s with sw := setPeer s.sw k pk' }, "announce", [])
+      some ({ s with sw := setPeer s.sw k pk', bits := s.bits.modify (k - 1) (·.set i true) }, "announce", [])
     | ["error", name, iT] => do
       let k ← dpeer? s name
       let i ← nat? iT
       let wasOut := s.out.contains (k, i)
       let pf := if wasOut && !(implFailed.any fun f => f.1 == k && f.2.1 == i && f.2.2 == "invalid") then
         [s!"side=impl key=invalid-not-marked PIECE_REQUEST_FAILED of {name} for piece {i}: the request is not marked invalid"] else []
-      some ({ s with sw := KrakenModel.Swarm.step crc32 s.sw (.reqfail 0 k i), out := s.out.filter (· != (k, i)) },
-            "error", pf)
+      some ({ s with sw := KrakenModel.Swarm.step crc32 s.sw (.reqfail 0 k i) }, "error", pf)
     | ["payload", name, iT, pT] => do
       let k ← dpeer? s name
       let i ← nat? iT
@@ -345,8 +351,7 @@ def dstepCore (s : DSt) (kind : String) (args impl : List String) : Option (DSt 
         (if !good && !had && wasOut && !(implFailed.any fun f => f.1 == k && f.2.1 == i && f.2.2 == "invalid") then
           [s!"side=impl key=invalid-not-marked rejected payload of {name} for piece {i}: the request is not marked invalid"] else []) ++
         (if good && !had && !implHasI then [s!"side=impl key=rejected-correct the blob's piece {i} from {name} was not accepted"] else [])
-      let out' := if implHasI then s.out.filter (·.2 != i) else s.out.filter (· != (k, i))
-      some ({ s with sw := sw3, out := out' }, s!"payload.{match r with | some x => resTok x | none => "stuck"}", pf)
+      some ({ s with sw := sw3 }, s!"payload.{match r with | some x => resTok x | none => "stuck"}", pf)
     | _ => none
   match pre with
   | none => none
@@ -361,6 +366,38 @@ def dstepCore (s : DSt) (kind : String) (args impl : List String) : Option (DSt 
           else { st with sw := KrakenModel.Swarm.step crc32 st.sw (.expire 0 f.1 f.2.1) }
         | none => st
       else st) s1
+    -- implementation-side ghost of the pending requests: a received piece clears all its requests, a request
+    -- that newly shows up in the failed list (invalid, expired) is no longer pending
+    let curFailed := implFailed.map fun f => (f.1, f.2.1)
+    let acceptedPiece : Option Nat := match args with
+      | ["payload", _, iT, _] => (nat? iT).bind fun i => if (implHas.toList.getD i '0') == '1' then some i else none
+      | _ => none
+    let outA := match acceptedPiece with | some i => s2.out.filter (·.2 != i) | none => s2.out
+    let outB := curFailed.eraseDups.foldl (fun (o : List (Nat × Nat)) q =>
+      let n := curFailed.count q - s2.prevFailed.count q
+      (List.range n).foldl (fun o' _ => o'.erase q) o) outA
+    -- `pipeline-stalled`: maybeRequestMorePieces(pK) ran (more / announce / an accepted payload) and sent nothing
+    -- although pK has a piece the agent misses that is not pending anywhere and pK's pipeline has room
+    let asked : Option Nat := match args with
+      | ["more", name] => dpeer? s2 name
+      | ["announce", name, _] => dpeer? s2 name
+      | ["payload", name, iT, _] =>
+        (match acceptedPiece, (nat? iT).bind (fun i => s.sw.peers[0]?.map (fun pa => hasPieceB pa i)) with
+         | some _, some false => dpeer? s2 name
+         | _, _ => none)
+      | _ => none
+    let pfStall := match asked with
+      | none => []
+      | some k =>
+        let limit := if s2.origin.getD (k - 1) false then s2.opipe else s2.pipe
+        let pend := (outB.filter (·.1 == k)).length
+        let kbits := s2.bits.getD (k - 1) []
+        let cands := (List.range kbits.length).filter fun i =>
+          kbits.getD i false && (implHas.toList.getD i '1') == '0' && !(outB.any (·.2 == i))
+        if pend < limit && !cands.isEmpty && !(implSent.any (·.1 == k)) then
+          [s!"side=impl key=pipeline-stalled {s2.names.getD (k - 1) "p?"} has pieces {cands} the agent misses and {limit - pend} free pipeline slots but got no request"]
+        else []
+    let s2 := { s2 with out := outB, prevFailed := curFailed }
     -- 3. the requests sent by this op
     let isResend := args == ["resend"]
     let (s3, unexplained) := followSent s2 isResend implSent
@@ -377,7 +414,7 @@ def dstepCore (s : DSt) (kind : String) (args impl : List String) : Option (DSt 
     let has := match s3.sw.peers[0]? with | some pa => bitsTok (bitfield pa.tor) | none => "?"
     let sentTok := if unexplained.isEmpty then (kv? impl "sent").getD "-" else "unexplained:" ++ listTok unexplained
     let obs := [s!"has={has}", s!"sent={sentTok}", s!"failed={listTok (modelFailed s3)}"]
-    some (s3, { obs := obs, branch := s!"d.{br}{if isResend && !implSent.isEmpty then ".sent" else ""}", propfails := pf0 ++ pfResend })
+    some (s3, { obs := obs, branch := s!"d.{br}{if isResend && !implSent.isEmpty then ".sent" else ""}{if asked.isSome && implSent.any (fun q => some q.1 == asked) then ".next" else ""}", propfails := pf0 ++ pfResend ++ pfStall })
 
 def dstep (s : DSt) (kind : String) (args impl : List String) : Option (DSt × StepOut) :=
   if kind = "op" ∧ args = ["done"] then
